@@ -385,7 +385,7 @@ class HDS(AlignedStream):
                 # First iteration
                 run_offset = read_offset
                 run_size = read_size
-            elif (read_offset == run_offset + run_size) or (run_offset, read_offset) == (0, 0):
+            elif (run_offset != 0 and read_offset == run_offset + run_size) or (run_offset, read_offset) == (0, 0):
                 # Consecutive (sparse) clusters
                 run_size += read_size
             else:
